@@ -27,7 +27,7 @@ ASSUMPTIONS = [
     'same-key cross-layout pairings are counted, not judged',
 ]
 NSH = 16
-NSCEN = {'quick': 2560, 'thorough': 40_000}
+NSCEN = {'quick': 2560, 'thorough': 120_000}
 NOW0 = 1_650_000_000
 
 
